@@ -55,6 +55,12 @@ def cases(tier, seed):
                         if alphas == [0.9] and ca in (("none", "none"), ("left", "none")):
                             # a third contest that exists only among units outside the model (its whole state is blocklisted)
                             out.append({"kind": "client", "levels": lv, "alphas": alphas, "hard": hard, "corr": corr, "calls": list(ca), "seed": seed, "passthrough_state": True})
+    # district office: 'postal_code' and 'district' are both computed as the (postal_code, district) contest level
+    hl = ["postal_code", "district", "county_fips"]
+    hlists = [list(p) for r in range(1, 4) for p in itertools.permutations(hl, r) if "postal_code" in p or "district" in p]
+    for lv in hlists:
+        for calls in ("none", "all_left", "all_right"):
+            out.append({"kind": "client_h", "levels": lv, "calls": calls, "seed": seed})
     for hard in (True, False):
         for corr in (True, False):
             out.append({"kind": "bfs", "depth": 2 if tier == "quick" else 3, "hard": hard, "corr": corr, "seed": seed})
@@ -167,6 +173,54 @@ def _client_case(case, cov, viol):
             _order(r, viol, ctx + " " + name)
     cov["client_histories"] += 1
     return 2, len(case["levels"]) > 1
+
+
+H_CONTESTS = ["AA_1", "AA_10", "AA_2", "BB_1", "BB_10", "BB_2"]
+
+
+def _client_h_case(case, cov, viol):
+    units = E.background(case["seed"], "H", 30, "AABB", partial=6)
+    units.append(E.make_probe(case["seed"], 0, "nonrep_partial", "pop0", "H", "10", weights="twoparty"))
+    lhs = H_CONTESTS if case["calls"] == "all_left" else []
+    rhs = H_CONTESTS if case["calls"] == "all_right" else []
+
+    def cfg(levels):
+        return E.make_cfg(office="H", pi_method="bootstrap", estimands=["margin"], features=["baseline_normalized_margin"], alphas=[0.9], aggregates=levels + ["unit"],
+                          model_parameters={"B": 10, "lambda_": 1.0}, lhs=list(lhs), rhs=list(rhs), stop=[])
+
+    weights = {c: i + 1 for i, c in enumerate(H_CONTESTS)}
+    ctx = f"district office levels={case['levels']} calls={case['calls']}"
+
+    def summary(levels):
+        r = E.run_estimates(units, cfg(levels), keep_client=True)
+        if "error" in r:
+            return f"run raised {r['error']}", None
+        try:
+            tab = r["client"].get_national_summary_votes_estimates(dict(weights), 2, [0.7, 0.9])
+            return E.table_to_obj(tab)["rows"], r["ok"]
+        except Exception as e:
+            return f"raised {type(e).__name__}: {str(e)[:120]}", r["ok"]
+
+    ref, ref_tabs = summary(["district"])
+    got, tabs = summary(case["levels"])
+    if isinstance(ref, str):
+        raise RuntimeError(ref)
+    if isinstance(got, str):
+        viol("summary-raised-after-finer-aggregates", f"{ctx}: {got}")
+    elif got != ref:
+        viol("summary-depends-on-aggregate-history", f"{ctx}: summary {got} but {ref} after the district level alone")
+    else:
+        _order(got, viol, ctx)
+        # hard threshold (default): prediction = base + weights of contests whose reported margin is positive
+        tname = "district_data" if "district" in case["levels"] else "state_data"
+        rows = E.tab_rows(tabs[tname])
+        exp = 2 + sum(weights[f"{r['postal_code']}_{r['district']}"] for r in rows if r["pred_margin"] > 0)
+        if got[0][1] != exp:
+            viol("summary-pred-not-sum-of-winners", f"{ctx}: prediction {got[0][1]} but base + weights of contests with a positive reported margin = {exp}")
+    cov["district_office_histories"] += 1
+    if case["calls"] != "none":
+        cov["district_office_histories_with_calls"] += 1
+    return 2, True
 
 
 def _order(rows, viol, ctx):
@@ -325,6 +379,8 @@ def evaluate(case):
     extra = {}
     if case["kind"] == "client":
         runs, nontrivial = _client_case(case, cov, viol)
+    elif case["kind"] == "client_h":
+        runs, nontrivial = _client_h_case(case, cov, viol)
     elif case["kind"] == "bfs":
         runs, nontrivial, nstates = _bfs_case(case, cov, viol)
         extra["n_states"] = nstates
@@ -333,4 +389,4 @@ def evaluate(case):
     return dict({"violations": V, "cov": dict(cov), "outcome": sha([v["sig"] for v in V] + [case["kind"]]), "nontrivial": nontrivial, "transitions": max(1, runs)}, **extra)
 
 
-REQUIRED_COUNTERS = {"client_histories": 100, "bfs_states": 4, "seam_executions": 50000, "wrong_size_rejected": 100, "called_contest_draw_groups": 1000, "passthrough_only_contest_runs": 20}
+REQUIRED_COUNTERS = {"client_histories": 100, "bfs_states": 4, "seam_executions": 50000, "wrong_size_rejected": 100, "called_contest_draw_groups": 1000, "passthrough_only_contest_runs": 20, "district_office_histories_with_calls": 20}
